@@ -50,7 +50,7 @@ def answer (ws : List String) : String :=
   let (deadline, ctxAt) := parseCtx ((field ws "ctx").getD "bg")
   let closeAt : Option Nat := match field ws "close" with
     | some "none" => none
-    | some s => s.toNat?
+    | some s => if s.startsWith "d" then (tailS s 1).toNat? else s.toNat?   -- d<k>: Close() while call k is pending
     | none => none
   let dc := field ws "dc" == some "1"
   let retireAt : Option Nat := (field ws "retire").bind String.toNat?
@@ -113,6 +113,8 @@ def step (_ : Unit) (ws : List String) : Unit × String :=
     ((), if nodeClientUsesCacheCalls (field r "dis" == some "1") (field r "dc" == some "1") then "mcache" else "do")
   | "rtx" :: _ => ((), "probe")   -- MULTI … EXEC blocks in cluster batches: probed by the harness only, not modelled
   | "!resend" :: r => ((), specResend r)
+  | "!argv" :: r =>   -- a batch that is sent again must carry the argv it had the first time
+    ((), if field r "same" == some "1" then "ok" else "bad")
   | _ => ((), "bad-op")
 
 def main : IO Unit := Hex.lineLoop () step
